@@ -277,6 +277,14 @@ def main():
     rc = extract_syntax()
     if rc:
         return rc
+    # --- operator tables by runtime reflection through the harness (C18 / C19), see tools/gen_optables.py
+    gen = os.path.join(ROOT, "tools", "gen_optables.py")
+    if os.path.exists(gen):
+        import subprocess
+        p = subprocess.run([sys.executable, gen], capture_output=True, text=True)
+        if p.returncode != 0:
+            print("extractor could not re-read: operator tables (" + (p.stdout + p.stderr).strip()[-200:] + ")")
+            return 1
     return 0
 
 if __name__ == "__main__":
